@@ -7,7 +7,8 @@ mcCallsC ==
   {[op |-> "ping", tag |-> "A", n |-> 8], [op |-> "ping", tag |-> "Z", n |-> 8], [op |-> "ping", tag |-> "A", n |-> 7],
    [op |-> "prio", sid |-> 1, w |-> <<>>, dep |-> <<>>, excl |-> <<>>], [op |-> "prio", sid |-> 1, w |-> <<256>>, dep |-> <<3>>, excl |-> <<TRUE>>],
    [op |-> "prio", sid |-> 3, w |-> <<257>>, dep |-> <<>>, excl |-> <<>>], [op |-> "prio", sid |-> 3, w |-> <<0>>, dep |-> <<>>, excl |-> <<>>],
-   [op |-> "prio", sid |-> 5, w |-> <<1>>, dep |-> <<5>>, excl |-> <<>>],
+   [op |-> "prio", sid |-> 5, w |-> <<1>>, dep |-> <<5>>, excl |-> <<>>], [op |-> "prio", sid |-> 3, w |-> <<1>>, dep |-> <<>>, excl |-> <<>>],
+   [op |-> "hdr", sid |-> 3, h |-> "req_get", es |-> FALSE, pr |-> <<<<1>>, <<>>, <<>>>>], CHdr(1, "trl", TRUE),
    [op |-> "hdr", sid |-> 1, h |-> "req_get", es |-> FALSE, pr |-> <<<<10>>, <<>>, <<>>>>],
    [op |-> "hdr", sid |-> 1, h |-> "req_get", es |-> TRUE, pr |-> <<<<>>, <<1>>, <<>>>>],
    [op |-> "hdr", sid |-> 3, h |-> "req_head", es |-> TRUE, pr |-> <<<<300>>, <<>>, <<FALSE>>>>],
